@@ -675,17 +675,17 @@ pub struct Tier {
 pub fn tier_runs(prop: Prop, tier: &str) -> u64 {
     let quick = match prop {
         Prop::C03 => 300_000,
-        Prop::C04 => 400_000,
-        Prop::C05 => 300_000,
-        Prop::C06 => 300_000,
-        Prop::C07 => 400_000,
-        Prop::C08 => 300_000,
-        Prop::C15 => 300_000,
-        Prop::C16 => 300_000,
-        Prop::C17 => 300_000,
+        Prop::C04 => 500_000,
+        Prop::C05 => 400_000,
+        Prop::C06 => 400_000,
+        Prop::C07 => 1_200_000,
+        Prop::C08 => 400_000,
+        Prop::C15 => 500_000,
+        Prop::C16 => 400_000,
+        Prop::C17 => 600_000,
     };
     let scale: u64 = match tier {
-        "thorough" => 60,
+        "thorough" => 50,
         _ => 1,
     };
     let n = quick * scale;
